@@ -1,7 +1,11 @@
 /// Get the two nearest time points for time t in format (index, subindex).
 pub fn get_nearest_times_2(t: f64, factor: isize, points: &mut [(isize, isize); 2]) {
-    let mut index = t.floor() as isize;
-    let mut subindex = ((t - t.floor()) * (factor as f64)).floor() as isize;
+    // Split the same product that the callers use for the interpolation fraction,
+    // `t * factor - (t * factor).floor()`. Taking the fractional part of t first rounds
+    // differently for negative t just below a grid point, and selected the wrong sub-filter.
+    let scaled = (t * factor as f64).floor() as isize;
+    let mut index = scaled.div_euclid(factor);
+    let mut subindex = scaled.rem_euclid(factor);
     points[0] = (index, subindex);
     subindex += 1;
     if subindex >= factor {
@@ -13,8 +17,10 @@ pub fn get_nearest_times_2(t: f64, factor: isize, points: &mut [(isize, isize); 
 
 /// Get the three nearest time points for time t in format (index, subindex).
 pub fn get_nearest_times_3(t: f64, factor: isize, points: &mut [(isize, isize); 3]) {
-    let start = t.floor() as isize;
-    let frac = ((t - t.floor()) * (factor as f64)).floor() as isize;
+    // See get_nearest_times_2.
+    let scaled = (t * factor as f64).floor() as isize;
+    let start = scaled.div_euclid(factor);
+    let frac = scaled.rem_euclid(factor);
     let mut index;
     let mut subindex;
     for (idx, sub) in (0..3).enumerate() {
@@ -33,8 +39,10 @@ pub fn get_nearest_times_3(t: f64, factor: isize, points: &mut [(isize, isize); 
 
 /// Get the four nearest time points for time t in format (index, subindex).
 pub fn get_nearest_times_4(t: f64, factor: isize, points: &mut [(isize, isize); 4]) {
-    let start = t.floor() as isize;
-    let frac = ((t - t.floor()) * (factor as f64)).floor() as isize;
+    // See get_nearest_times_2.
+    let scaled = (t * factor as f64).floor() as isize;
+    let start = scaled.div_euclid(factor);
+    let frac = scaled.rem_euclid(factor);
     let mut index;
     let mut subindex;
     for (idx, sub) in (-1..3).enumerate() {
